@@ -85,10 +85,6 @@ theorem dot_eq_rsum : ∀ (r v : List Nat), r.length = v.length →
 
 /-! ### closed graphs -/
 
-/-- graph-like and without dangling edges: every column has weight 0 or 2 -/
-def closedGraph (H : Mat) : Bool :=
-  graphLike H && (List.range (ncols H)).all (fun q => cnt H.length (fun s => hb H s q) != 1)
-
 theorem closedGraph_cols {H : Mat} (h : closedGraph H = true) (q : Nat) (hq : q < ncols H) :
     cnt H.length (fun s => hb H s q) = 0 ∨ cnt H.length (fun s => hb H s q) = 2 := by
   unfold closedGraph graphLike at h
